@@ -308,6 +308,9 @@ def r4_restored_flags_live(ctx, rule):
     ln = cfg.node_of(c08._stmt_of(mod, loads[0]))
     # reads of the restored keys
     ls = ctx.fn('pcfg_guesser.py::load_save')
+    if len(params(ls)) < 2:
+        ctx.unk(rule, 'pcfg_guesser.py::load_save', 'load_save no longer receives the option dictionary it restores into')
+        return
     pi = params(ls)[1]
     restored = set()
     for n in walk_local(ls):
